@@ -68,8 +68,12 @@ FirstName == CHOOSE a \in Names : TRUE
 Pruned(s, c) ==
     LET dead(p) == /\ p.abs /\ Len(p.parts) = 3
                    /\ Res(s, AbsP(SubSeq(p.parts, 1, 2)), FALSE).id = 0
-                   /\ p.parts[3] # FirstName IN
-    dead(c.p) \/ (c.op \in {"rename", "link"} /\ dead(c.q))
+                   /\ p.parts[3] # FirstName
+        \* removing or moving the working directory (or an ancestor of it) is outside the universe
+        pulls(p) == LET r == Res(s, p, FALSE) IN r.err = "ok" /\ r.id # Root /\ r.id \in Range(s.cwd) IN
+    \/ dead(c.p) \/ (c.op \in {"rename", "link"} /\ dead(c.q))
+    \/ (c.op \in {"remove", "removeall", "rename"} /\ pulls(c.p))
+    \/ (c.op = "removeall" /\ c.p = RootP /\ Len(s.cwd) > 1)
 
 Calls(s) ==
     LET all == CASE Profile = "ns"    -> NsCalls \cup OwnCalls
@@ -113,14 +117,14 @@ UniqueDirParent ==
     \A d \in DirIds(st) \ {Root} :
         Cardinality({e \in Entries(st) : st.ino[e[1]].ent[e[2]] = d}) = (IF d \in Reachable(st) THEN 1 ELSE 0)
 AllNamedReachable ==
-    \A i \in DOMAIN st.ino : i \in Reachable(st) \/ i \in OpenInos(st)
-OnlyFilesMultiplyLinked ==
-    \A i \in DOMAIN st.ino : Nlink(st, i) > 1 => st.ino[i].k = "file"
+    \A i \in DOMAIN st.ino : i \in Reachable(st) \/ i \in OpenInos(st) \/ i \in Range(st.cwd)
+NoDirMultiplyLinked ==
+    \A i \in DOMAIN st.ino : Nlink(st, i) > 1 => st.ino[i].k # "dir"
 CwdIsDirStack ==
     /\ Len(st.cwd) = Len(st.cwdn) + 1 /\ st.cwd[1] = Root
 TreeWellFormed ==
     /\ NoDanglingEntry /\ RootHasNoName /\ UniqueDirParent /\ AllNamedReachable
-    /\ OnlyFilesMultiplyLinked /\ CwdIsDirStack
+    /\ NoDirMultiplyLinked /\ CwdIsDirStack
 
 \* a failed call changes nothing (RemoveAll is documented to remove what it can)
 FailedCallChangesNothing ==
